@@ -871,26 +871,27 @@ impl TryFrom<AuthorizerPolicies> for Authorizer {
             policies,
         } = authorizer_policies;
 
-        let mut authorizer = Self::new();
+        // go through the builder so that facts and rules are loaded in the Datalog world,
+        // not only kept in the authorizer's block
+        let mut builder = AuthorizerBuilder::new();
 
         for fact in facts.into_iter() {
-            authorizer.authorizer_block_builder = authorizer.authorizer_block_builder.fact(fact)?;
+            builder = builder.fact(fact)?;
         }
 
         for rule in rules.into_iter() {
-            authorizer.authorizer_block_builder = authorizer.authorizer_block_builder.rule(rule)?;
+            builder = builder.rule(rule)?;
         }
 
         for check in checks.into_iter() {
-            authorizer.authorizer_block_builder =
-                authorizer.authorizer_block_builder.check(check)?;
+            builder = builder.check(check)?;
         }
 
         for policy in policies {
-            authorizer.policies.push(policy);
+            builder = builder.policy(policy)?;
         }
 
-        Ok(authorizer)
+        builder.build_unauthenticated()
     }
 }
 
